@@ -223,23 +223,9 @@ func ruleRequestTuples(c *Ctx, rule string) {
 
 func ruleFingerprintDeps(c *Ctx, rule string) {
 	w := c.W
-	c.Rule(rule, "dependency: Fingerprint writes srcIP/srcPort from netAddrIPAndPort(f.SrcAddr) #0/#1, dstIP/dstPort from netAddrIPAndPort(f.DstAddr) #0/#1 and protocol from f.Protocol, five distinct fields; netAddrIPAndPort's results depend on exactly IP and Port of UDP and TCP addresses", 6)
+	c.Rule(rule, "dependency: in Fingerprint (and the helpers it uses) the bytes written to srcIP/srcPort depend on f.SrcAddr only — on the IP resp. the Port of a UDP/TCP address —, dstIP/dstPort likewise on f.DstAddr, protocol on f.Protocol; every IP copied into a 16-byte key field is the To16() form (one address, one key)", 6)
 	fn := w.Func("allocation", "FiveTuple", "Fingerprint")
-	helper := w.Func("allocation", "", "netAddrIPAndPort")
-	want := map[string]string{"srcIP": "SrcAddr#0", "srcPort": "SrcAddr#1", "dstIP": "DstAddr#0", "dstPort": "DstAddr#1", "protocol": "Protocol"}
-	got := map[string]string{}
-	src := func(v ssa.Value) string {
-		v = w.resolveLoad(v)
-		if call, idx := callOf(v); call != nil && call.Call.StaticCallee() == helper {
-			if b, f, ok := fieldLoad(call.Call.Args[0]); ok && w.sameKey(b, fn.Params[0]) {
-				return fmt.Sprintf("%s#%d", f.Name(), idx)
-			}
-		}
-		if b, f, ok := fieldLoad(v); ok && w.sameKey(b, fn.Params[0]) {
-			return f.Name()
-		}
-		return "?" + w.desc(v)
-	}
+	recv := fn.Params[0]
 	fpField := func(addr ssa.Value) string {
 		// &fp.X  or slice of &fp.X
 		for {
@@ -248,63 +234,163 @@ func ruleFingerprintDeps(c *Ctx, rule string) {
 				addr = x.X
 				continue
 			case *ssa.FieldAddr:
-				if n := namedOf(x.X.Type()); n != nil && n.Obj().Name() == "FiveTupleFingerprint" {
-					return derefStruct(x.X.Type()).Field(x.Field).Name()
+				if n := namedOf(x.X.Type()); n != nil && nm(n.Obj()) == "FiveTupleFingerprint" {
+					return nm(derefStruct(x.X.Type()).Field(x.Field))
 				}
 			}
 			return ""
 		}
 	}
-	w.eachInstr(fn, func(in ssa.Instruction) {
-		switch x := in.(type) {
-		case *ssa.Store:
-			if f := fpField(x.Addr); f != "" {
-				got[f] = src(x.Val)
-			}
-		case *ssa.Call:
-			if b, ok := x.Call.Value.(*ssa.Builtin); ok && b.Name() == "copy" {
-				if f := fpField(x.Call.Args[0]); f != "" {
-					got[f] = src(x.Call.Args[1])
+	written := map[string][]ssa.Value{}
+	for _, body := range w.helpersOf(fn) {
+		w.eachInstr(body, func(in ssa.Instruction) {
+			switch x := in.(type) {
+			case *ssa.Store:
+				if f := fpField(x.Addr); f != "" {
+					written[f] = append(written[f], x.Val)
+				}
+			case *ssa.Call:
+				if b, ok := x.Call.Value.(*ssa.Builtin); ok && b.Name() == "copy" {
+					if f := fpField(x.Call.Args[0]); f != "" {
+						written[f] = append(written[f], x.Call.Args[1])
+					}
 				}
 			}
-		}
-	})
+		})
+	}
+	type want struct{ tuple, net string }
+	wants := map[string]want{"srcIP": {"SrcAddr", "IP"}, "srcPort": {"SrcAddr", "Port"}, "dstIP": {"DstAddr", "IP"}, "dstPort": {"DstAddr", "Port"}, "protocol": {"Protocol", ""}}
 	var names []string
-	for k := range want {
+	for k := range wants {
 		names = append(names, k)
 	}
 	sort.Strings(names)
 	for _, k := range names {
 		c.Anchor(rule, "fp."+k)
-		if got[k] == want[k] {
-			c.OK(rule, fname(fn), "fp."+k, w.pos(fn.Pos()), "written from "+got[k])
+		vals := written[k]
+		if len(vals) == 0 {
+			c.Bad(rule, fname(fn), "fp."+k, w.pos(fn.Pos()), "fingerprint field "+k+" is never written: two different 5-tuples can share a key")
+			continue
+		}
+		tupleDeps, netDeps := map[string]bool{}, map[string]bool{}
+		for _, v := range vals {
+			w.depWalk(v, nil, func(x ssa.Value, _ []*ssa.Call) bool {
+				if b, f, ok := fieldLoad(x); ok {
+					if w.sameKey(b, recv) {
+						tupleDeps[nm(f)] = true
+					}
+				}
+				if fa, ok := x.(*ssa.FieldAddr); ok {
+					if n := namedOf(fa.X.Type()); n != nil && n.Obj().Pkg() != nil && n.Obj().Pkg().Path() == "net" {
+						netDeps[derefStruct(fa.X.Type()).Field(fa.Field).Name()] = true
+					}
+				}
+				return false
+			})
+		}
+		list := func(m map[string]bool) string {
+			var out []string
+			for k := range m {
+				out = append(out, k)
+			}
+			sort.Strings(out)
+			return strings.Join(out, ",")
+		}
+		wt := wants[k]
+		okT := list(tupleDeps) == wt.tuple
+		okN := wt.net == "" || list(netDeps) == wt.net
+		if okT && okN {
+			c.OK(rule, fname(fn), "fp."+k, w.pos(fn.Pos()), "depends on f."+wt.tuple+map[bool]string{true: " (" + wt.net + " of the address)", false: ""}[wt.net != ""])
 		} else {
-			c.Bad(rule, fname(fn), "fp."+k, w.pos(fn.Pos()), fmt.Sprintf("fingerprint field %s is written from %q, expected %s: two different 5-tuples can share a key (or one 5-tuple two keys)", k, got[k], want[k]))
+			c.Bad(rule, fname(fn), "fp."+k, w.pos(fn.Pos()), fmt.Sprintf("fingerprint field %s depends on tuple fields {%s} and address fields {%s}, expected {%s} / {%s}: two different 5-tuples can share a key (or one 5-tuple two keys)", k, list(tupleDeps), list(netDeps), wt.tuple, wt.net))
 		}
 	}
+	// canonical IP form: every copy into a [16]byte key (in Fingerprint and what it calls)
+	// takes a To16() result
 	c.Anchor(rule, "netAddrIPAndPort")
-	deps := w.addrFieldDeps(helper)
-	wantDeps := "TCPAddr.IP,TCPAddr.Port,UDPAddr.IP,UDPAddr.Port"
-	if strings.Join(deps, ",") == wantDeps {
-		// the IP result must be the canonical 16-byte form so that one address has one key
-		okForm := true
-		for _, ret := range returnsOf(helper) {
-			v := w.resolveLoad(ret.Results[0])
-			if isNilConst(v) {
+	reach := map[*ssa.Function]bool{}
+	var add func(f *ssa.Function, d int)
+	add = func(f *ssa.Function, d int) {
+		if reach[f] || !w.IsMod[f] || d > 3 {
+			return
+		}
+		reach[f] = true
+		w.eachInstr(f, func(in ssa.Instruction) {
+			if cal := staticCallee(in); cal != nil {
+				add(cal, d+1)
+			}
+		})
+	}
+	add(fn, 0)
+	isTo16 := func(v ssa.Value) bool {
+		call, _ := callOf(v)
+		return call != nil && call.Call.StaticCallee() != nil && call.Call.StaticCallee().String() == "(net.IP).To16"
+	}
+	var allTo16 func(v ssa.Value, depth int) bool
+	allTo16 = func(v ssa.Value, depth int) bool {
+		if depth > 4 {
+			return false
+		}
+		for _, lf := range w.guardedLeaves(v, nil) {
+			x := w.resolveLoad(lf.val)
+			if isNilConst(x) || isTo16(x) {
 				continue
 			}
-			call, _ := callOf(v)
-			if call == nil || call.Call.StaticCallee() == nil || call.Call.StaticCallee().String() != "(net.IP).To16" {
-				okForm = false
+			// a result of a module helper: all of that helper's returns
+			if call, idx := callOf(x); call != nil && call.Call.StaticCallee() != nil && w.IsMod[call.Call.StaticCallee()] {
+				if idx < 0 {
+					idx = 0
+				}
+				ok := true
+				for _, r := range returnsOf(call.Call.StaticCallee()) {
+					if idx >= len(r.Results) || !allTo16(r.Results[idx], depth+1) {
+						ok = false
+					}
+				}
+				if ok {
+					continue
+				}
 			}
+			return false
 		}
-		if okForm {
-			c.OK(rule, fname(helper), "netAddrIPAndPort deps", w.pos(helper.Pos()), "results depend on exactly {"+wantDeps+"}; the IP is returned in To16() form")
-		} else {
-			c.Bad(rule, fname(helper), "netAddrIPAndPort deps", w.pos(helper.Pos()), "the IP component is not returned as ip.To16(): IPv4 and IPv6 spellings are no longer embedded injectively in the 16-byte key")
-		}
-	} else {
-		c.Bad(rule, fname(helper), "netAddrIPAndPort deps", w.pos(helper.Pos()), "results depend on {"+strings.Join(deps, ",")+"}, expected {"+wantDeps+"}")
+		return true
+	}
+	nCopies, badCopy := 0, ""
+	for _, f := range sortedFns(reach) {
+		w.eachInstr(f, func(in ssa.Instruction) {
+			call, ok := in.(*ssa.Call)
+			if !ok {
+				return
+			}
+			b, isB := call.Call.Value.(*ssa.Builtin)
+			if !isB || b.Name() != "copy" {
+				return
+			}
+			base, _, _ := sliceRange(call.Call.Args[0])
+			is16 := false
+			t := base.Type()
+			if p, isP := t.Underlying().(*types.Pointer); isP {
+				t = p.Elem()
+			}
+			if arr, isArr := t.Underlying().(*types.Array); isArr && arr.Len() == 16 {
+				is16 = true
+			}
+			if !is16 {
+				return
+			}
+			nCopies++
+			if !allTo16(call.Call.Args[1], 0) {
+				badCopy = w.instrPos(in)
+			}
+		})
+	}
+	switch {
+	case nCopies == 0:
+		c.Bad(rule, fname(fn), "netAddrIPAndPort deps", w.pos(fn.Pos()), "no copy of an IP into a 16-byte key field found: anchor gone")
+	case badCopy != "":
+		c.Bad(rule, fname(fn), "netAddrIPAndPort deps", badCopy, "the IP copied into the 16-byte key is not ip.To16(): IPv4 and IPv6 spellings are no longer embedded injectively in the key (a 4-byte IPv4 address and an IPv6 address starting with the same bytes collide; one address in two spellings gets two keys)")
+	default:
+		c.OK(rule, fname(fn), "netAddrIPAndPort deps", w.pos(fn.Pos()), fmt.Sprintf("%d copies into 16-byte key fields, each of a To16() result", nCopies))
 	}
 }
 
